@@ -1,15 +1,16 @@
-import IofloModel.Model.Sked
+import IofloModel.Model.SkedF64
 import IofloModel.Drv.Proto
 /-!
 driver for the scheduler model (engine `sked`)
 
-request   `run <x|f> <fuel> <config>`            → `<outcome> | <event>;<event>;… | aborted id… | ticks n`
+request   `run <x|f|s|r> <fuel> <config>`            → `<outcome> | <event>;<event>;… | aborted id… | ticks n`
           `drift <fuel> <config(f)> @ <config(x)>` → `true` / `false`   (region predicate of D2)
 
 config    `<P> <stamp> <nhouses> { <n> id… <n> id… <n> id… }  <ntaskers> { tasker }`
 tasker    `<a|i> <period> <nentries> { <sendIndex> <nacts> { act } } <-|fromIndex <nacts> { act }>`
 act       `b <ctl 0-5> <period|-> <n> id…`  |  `r`  |  `x <k|s|e|b> <name>`
-numbers   mode `x`: `p/q` (exact rational);  mode `f`: 16 hex digits = IEEE binary64 bit pattern
+numbers   mode `x`: `p/q` (exact rational);  modes `f` (hardware `Float`) and `s` (the kernel-evaluable
+          binary64 model `F64`): 16 hex digits = IEEE binary64 bit pattern
 event     `<L|F> <tick> <id> <ctl> <stamp> <result> <periodAfter>`   result: `y<status 0-4>` | `stop` | `raise:<exc>`
 -/
 namespace Ioflo.Drv.Sked
@@ -48,6 +49,10 @@ def hexNat (s : String) : Option Nat :=
 
 def floatOfString (s : String) : Option Float :=
   if s.length ≠ 16 then none else (hexNat s).map (fun n => Float.ofBits n.toUInt64)
+
+def f64OfString (s : String) : Option F64 :=
+  if s.length ≠ 16 then none else (hexNat s).bind F64.ofBits?
+def f64ToString (x : F64) : String := natToHex 16 x.toBits
 
 def ratToString (r : Rat) : String := toString r.num ++ "/" ++ toString r.den
 def floatToString (f : Float) : String := natToHex 16 f.toBits.toNat
@@ -154,6 +159,15 @@ def step (_ : Unit) (line : String) : Unit × String :=
     | "run" :: "f" :: rest =>
       match (do let f ← nat; let c ← config floatOfString; pure (f, c) : P _).run rest with
       | some ((f, c), []) => some (showRun floatToString c f)
+      | _ => none
+    | "run" :: "s" :: rest =>
+      match (do let f ← nat; let c ← config f64OfString; pure (f, c) : P _).run rest with
+      | some ((f, c), []) => some (showRun f64ToString c f)
+      | _ => none
+    | "run" :: "r" :: rest =>
+      -- numbers given as exact rationals, every one rounded to binary64 by the model itself (`Config.toF64`)
+      match (do let f ← nat; let c ← config ratOfString; pure (f, c) : P _).run rest with
+      | some ((f, c), []) => some (showRun f64ToString c.toF64 f)
       | _ => none
     | "drift" :: rest =>
       match (do let f ← nat; let cf ← config floatOfString
